@@ -373,6 +373,11 @@ func runCase(rep *vh.Report, env vh.Env, stacks []*stackKind, i int) {
 		half := len(list) / 2
 		rq.Headers = append(rq.Headers, [2]string{"Cookie", strings.Join(list[:half], "; ")}, [2]string{"Cookie", strings.Join(list[half:], "; ")})
 		cookieDesc += "+two-lines"
+	} else if sep := r.Intn(6); withSession && sep < 2 && len(list) > 1 {
+		// separators net/http's cookie reader accepts besides "; ": a bare ";" and ";" + tab (added after
+		// seeded change C03n - raw cookie pairs forwarded verbatim, split on "; " only - was missed)
+		rq.Headers = append(rq.Headers, [2]string{"Cookie", strings.Join(list, []string{";", ";\t"}[sep])})
+		cookieDesc += []string{"+bare-semicolon", "+semicolon-tab"}[sep]
 	} else {
 		rq.Cookies = list
 	}
